@@ -531,6 +531,7 @@ pub fn run_check(
     let mut cands: BTreeMap<String, Candidate> = BTreeMap::new();
     let mut foreign: BTreeMap<String, u64> = BTreeMap::new();
     let mut harness_warnings: Vec<String> = Vec::new();
+    let mut not_reproduced: Vec<String> = Vec::new();
     let mut truncated = false;
     let mut hang_suspects: Vec<u64> = Vec::new();
 
@@ -743,12 +744,13 @@ pub fn run_check(
         let first = match confirmed {
             Some(v) => v,
             None => {
-                eprintln!(
-                    "harness error: violation {} at run {} did not reproduce in a fresh process (non-determinism)",
-                    c.violation.class(),
-                    c.index
-                );
-                return 2;
+                // Every simulated process runs on a fresh thread of a long-lived worker; what
+                // can still differ from a fresh OS process is process-wide state of the code
+                // under test (a static cache) carried over from earlier runs. That is a
+                // harness error on its own - unless other observations of this batch do
+                // reproduce from their tapes, which are then violations in their own right.
+                not_reproduced.push(format!("{} at run {}", c.violation.class(), c.index));
+                continue;
             }
         };
         let (tape, v, tried, death) = if Instant::now() < triage_deadline {
@@ -821,6 +823,13 @@ pub fn run_check(
     );
     if agg.evaluations == 0 {
         eprintln!("harness error: no run completed");
+        return 2;
+    }
+    for w in &not_reproduced {
+        println!("harness warning: an observation did not reproduce from its tape in a fresh process ({}): state outside the tape, e.g. process-wide state carried over from earlier runs of the worker, took part", w);
+    }
+    if n_viol == 0 && !not_reproduced.is_empty() {
+        eprintln!("harness error: {} observation(s) did not reproduce in a fresh process and nothing else was found (non-determinism)", not_reproduced.len());
         return 2;
     }
     if n_viol > 0 {
